@@ -38,6 +38,8 @@ pub enum TKind {
     C08,
     /// CAS-carrying stores and deletes racing each other and plain stores
     C02,
+    /// accounting under concurrency: stores of fresh keys, deletes of existing ones
+    C15,
 }
 
 pub struct TCheck {
@@ -57,6 +59,9 @@ fn gen_program(kind: TKind, run_seed: u64, tier: Tier) -> TProgram {
     }
     if kind == TKind::C08 {
         return gen_c08_program(run_seed, tier);
+    }
+    if kind == TKind::C15 {
+        return gen_c15_program(run_seed, tier);
     }
     if kind == TKind::C02 {
         // the C03 programs (get / set / cas-set / delete with and without CAS on one key)
@@ -184,7 +189,8 @@ fn gen_program(kind: TKind, run_seed: u64, tier: Tier) -> TProgram {
                 TKind::C04 => match rng.below(14) {
                     0 => SymReq::get(op::GET, &key),
                     1 => SymReq::store(op::SET, &key, small_val(&mut rng, tag), tag as u32, 0, CasSel::Zero),
-                    2 => SymReq::delete(op::DELETE, &key, CasSel::Zero),
+                    // (a delete may carry the CAS of the item the read-modify-write command is about to replace)
+                    2 => SymReq::delete(op::DELETE, &key, if rng.chance(1, 2) { cas.clone() } else { CasSel::Zero }),
                     3 | 4 => SymReq::store(op::ADD, &key, small_val(&mut rng, tag), tag as u32, 0, CasSel::Zero),
                     5 | 6 => SymReq::store(op::REPLACE, &key, small_val(&mut rng, tag), tag as u32, 0, cas.clone()),
                     7 | 8 => SymReq::concat(op::APPEND, &key, small_val(&mut rng, tag), cas.clone()),
@@ -207,7 +213,7 @@ fn gen_program(kind: TKind, run_seed: u64, tier: Tier) -> TProgram {
                     13 => SymReq::store(op::SET, &keys[rng.usize(keys.len())], Val::Fill { byte: b'z', len: rng.range(20, 200) as u32 }, 0, 0, CasSel::Zero),
                     _ => SymReq::get(op::GETK, &keys[rng.usize(keys.len())]),
                 },
-                TKind::C05 | TKind::C08 | TKind::C02 => unreachable!(),
+                TKind::C05 | TKind::C08 | TKind::C02 | TKind::C15 => unreachable!(),
                 TKind::C14 => {
                     let k = keys[rng.usize(keys.len())].clone();
                     match rng.below(10) {
@@ -583,6 +589,61 @@ fn gen_c08_program(run_seed: u64, tier: Tier) -> TProgram {
     }
 }
 
+fn gen_c15_program(run_seed: u64, tier: Tier) -> TProgram {
+    let mut rng = Rng::sub(run_seed, "tprog-c15");
+    let mut knobs = Knobs::default_for(run_seed);
+    knobs.shards = *rng.pick(&[2usize, 4, 16]);
+    knobs.item_limit = 1024 * 1024;
+    knobs.policy = Policy::Random;
+    knobs.memory_limit = *rng.pick(&[80u64, 120, 200, 400, 1 << 40]);
+    let n_init = rng.range(2, 5) as usize;
+    let keys: Vec<Vec<u8>> = (0..n_init).map(|i| vec![b'k', b'0' + i as u8]).collect();
+    let mut init = Vec::new();
+    for k in &keys {
+        init.push(InitOp::Req(SymReq::store(op::SET, k, Val::Fill { byte: b'i', len: rng.range(5, 40) as u32 }, 0, 0, CasSel::Zero)));
+    }
+    let n_clients = rng.range(2, 3) as usize;
+    let mut clients = Vec::new();
+    let mut tag = 0u8;
+    let mut opaque = 0x7f00_0000u32;
+    for _t in 0..n_clients {
+        let n_ops = match tier {
+            Tier::Thorough => *rng.pick(&[1u64, 2, 2, 3]),
+            Tier::Quick => rng.range(1, 3),
+        } as usize;
+        let mut ops = Vec::new();
+        for _ in 0..n_ops {
+            tag += 1;
+            opaque += 1;
+            let mut r = match rng.below(8) {
+                0..=3 => SymReq::store(op::SET, &[b'n', b'a' + tag], Val::Fill { byte: b'a' + tag, len: rng.range(5, 60) as u32 }, 0, 0, CasSel::Zero),
+                4..=6 => SymReq::delete(op::DELETE, &keys[rng.usize(keys.len())], CasSel::Zero),
+                _ => SymReq::get(op::GET, &keys[rng.usize(keys.len())]),
+            };
+            r.opaque = opaque;
+            ops.push(r);
+        }
+        clients.push(ops);
+    }
+    let sseed = Rng::sub(run_seed, "schedule").next();
+    let sched = if rng.chance(3, 5) {
+        SchedSpec::Random { seed: sseed }
+    } else {
+        SchedSpec::Pct {
+            seed: sseed,
+            depth: rng.range(1, 3) as u8,
+        }
+    };
+    TProgram {
+        knobs,
+        init,
+        clients,
+        keys,
+        sched,
+        settle: Vec::new(),
+    }
+}
+
 /// C02 under concurrency: (1) within one lifetime of the key (no delete succeeded) every
 /// acknowledged mutation carries a CAS no other acknowledged mutation carries, and none
 /// carries the CAS the item had before; (2) a history with CAS-carrying commands that no
@@ -823,6 +884,16 @@ impl TCheck {
             TKind::C05 if clean => evaluate_c05(p, h, &mut viols),
             TKind::C08 if clean => evaluate_c08(p, h, out, &mut viols),
             TKind::C02 if clean => evaluate_c02(p, h, out, &mut viols),
+            TKind::C15 if clean => {
+                // none of the recorded drift mechanisms is in these programs (no overwrite, no refused
+                // conditional store, no expiry, no flush), and the recorded races only make the counter
+                // too LOW: whatever the schedule, the accounted usage never exceeds what is stored
+                if let Some(acc) = h.accounted_end {
+                    if acc > h.stored_bytes_end {
+                        viols.push(Violation::new("C15", "overcount-after-concurrent-stores-and-deletes", format!("after the clients finished the accounted usage is {} but only {} bytes in {} records are stored (fresh-key stores, deletes of existing keys and gets only: nothing here may leave bytes accounted that are not stored); history: {}", acc, h.stored_bytes_end, h.items_end, describe_history(h))));
+                    }
+                }
+            }
             TKind::C14 if clean => {
                 // no store is in progress now: the sum is at most the limit plus one
                 // record per client that stored (its largest), plus the record the
@@ -942,6 +1013,7 @@ impl TCheck {
             TKind::C05 => "C05",
             TKind::C08 => "C08",
             TKind::C02 => "C02",
+            TKind::C15 => "C15",
         };
         if self.kind == TKind::C14 {
             // "eviction always terminates" is part of C14: in its own programs a run that
@@ -969,6 +1041,7 @@ impl Check for TCheck {
             TKind::C05 => "C05",
             TKind::C08 => "C08",
             TKind::C02 => "C02",
+            TKind::C15 => "C15",
         }
     }
     fn runs(&self, tier: Tier) -> u64 {
@@ -1130,6 +1203,7 @@ impl Check for TCheck {
             TKind::C04 => "add / replace / append / prepend / incr / decr (cas 0 or the current CAS) mixed with get / set / delete on one key",
             TKind::C16 => "any commands: single-key, multi-key, immediate and delayed flush, stores that trigger eviction sweeps, expiry collection",
             TKind::C05 => "every command on a key whose item is just alive or just expired and not yet collected",
+            TKind::C15 => "stores of fresh keys, deletes of existing keys and gets under random eviction with limits 80..400 bytes",
             TKind::C02 => "set / cas-set (current, stale) / delete (with and without CAS) / get on one key",
             TKind::C08 => "delete (cas 0 / current / stale) racing set / cas-set / get on one key; immediate flushes racing stores over 3-4 keys",
             TKind::C14 => "stores / overwrites / appends / counter updates / deletes under random eviction with limits 0..300 bytes",
